@@ -4,4 +4,6 @@ go 1.23.1
 
 require github.com/simimpact/srsim v0.0.0
 
+require google.golang.org/protobuf v1.34.2 // indirect
+
 replace github.com/simimpact/srsim => /repo
